@@ -194,6 +194,12 @@ impl LogView {
             LogView::Stopped(d) => d.cache_log().entries.get(&i).cloned(),
         }
     }
+    pub fn last(&self) -> u64 {
+        match self {
+            LogView::Live(l) => l.last_entry_id(),
+            LogView::Stopped(d) => d.cache_log().entries.keys().next_back().copied().unwrap_or(0),
+        }
+    }
 }
 
 impl World {
@@ -393,6 +399,18 @@ impl World {
                                         .any(|i| log_for_obs.entry(i).ok().flatten().and_then(|x| x.payload).map(|p| p.is_config()).unwrap_or(false)),
                                 },
                             );
+                        }
+                    }
+                    if c.role == NodeRole::Leader as i32 {
+                        // C27 observation: how far were the learners a committed promotion turns into voters?
+                        for i in (last_idx + 1)..=c.new_commit_index {
+                            if let Ok(Some(e)) = log_for_obs.entry(i) {
+                                if let Some(ids) = memmon::promoted_ids(&scenario::payload_bytes(&e)) {
+                                    let v = views.lock().unwrap();
+                                    let promoted: Vec<(u32, u64)> = ids.iter().map(|pid| (*pid, v.get(pid).map(|x| x.last()).unwrap_or(0))).collect();
+                                    hist.lock().unwrap().push(t, Ev::PromoteCommitted { leader: id, index: i, promoted });
+                                }
+                            }
                         }
                     }
                     hist.lock().unwrap().push(
